@@ -24,7 +24,7 @@ ASSUMPTIONS = [
 ]
 REQUIRED = {"ukv.op": 2000, "ukv.failing-op": 200, "ukv.rawscan": 200, "ukv.reopen-stale": 50,
             "coll.session": 200, "coll.in-session-read": 200, "exh.sequences": 1000,
-            "rejected.cases": 100, "rejected.duplicate-of-a-queued-record": 20}
+            "rejected.cases": 100, "coll.buffered-duplicate-put": 30, "rejected.duplicate-of-a-queued-record": 20}
 CHUNK_TIMEOUT = 900
 TECHNIQUE = "runtime monitoring: reference map model stepped beside real UKVFile/Collection handles + independent raw-file scan"
 LEVEL_TEXT = ("Held on the histories produced: the real UKVFile / Collection objects are driven through exhaustive short and "
@@ -472,8 +472,10 @@ def run_coll(spec, ctx):
                             val = rng.randbytes(rng.choice([0, 1, 10, 100, 9000]))
                             dup = k in committed or k in pending
                             over = len(k.encode()) > 255
-                            if buffered and (dup or over):
-                                continue  # failing puts in buffered mode are exercised by C04 (flush at exit fails)
+                            if buffered and over:
+                                continue  # an oversize key in buffered mode fails in the flush at exit: C04's fail cases
+                            if buffered and dup:
+                                ctx.count("coll.buffered-duplicate-put")
                             hist.append(("set", k[:8], len(k.encode()), len(val)))
                             try:
                                 col[k] = val
@@ -486,6 +488,17 @@ def run_coll(spec, ctx):
                                 why = "duplicate" if dup else "oversize-key"
                                 if raised is None:
                                     v(f"coll:set:{why}:accepted")
+                                known = {**committed, **pending}
+                                if raised is None and buffered:
+                                    break       # (reported above) the doomed record sits in the queue: nothing more to learn
+                                if dup:
+                                    try:
+                                        if col[k] != known[k]:
+                                            v(f"coll:set:{why}:get-returns-the-rejected-value")
+                                            break
+                                    except Exception as e:  # noqa
+                                        v(f"coll:set:{why}:stored-record-unreadable-after-failed-put:{type(e).__name__}")
+                                        break
                                 now = set(col.keys())
                                 want = set(committed) | set(pending)
                                 if now != want:
